@@ -96,6 +96,20 @@ def _ident(stream):
 MAPTEXT = {'rev': lambda d: d[::-1], 'dup': lambda d: d + d}
 
 
+def _user_bang(stream):
+    """a user-written transformation for Transformer.apply(function), after the example in its docstring: a
+    generator over the MARKED stream that changes the selected TEXT events (model: the same as map(_bang, TEXT))"""
+    from genshi.core import TEXT
+    for mark, (kind, data, pos) in stream:
+        if mark and kind is TEXT:
+            yield mark, (kind, data + '!', pos)
+        else:
+            yield mark, (kind, data, pos)
+
+
+USERFN = {'bang': _user_bang}
+
+
 def rec_path_class(rec, cur=None):
     """a Path subclass that records, per select link (keyed by its index in the chain), the list of
     Path.test() results into `rec`.
@@ -149,9 +163,15 @@ def apply_op(t, i, op, bufs, RecPath):
 
     name = op[0]
     if name == 'select':
-        p = RecPath(G.path_str(op[1]))
-        p.idx = i
+        if RecPath is None:
+            p = G.path_str(op[1])           # the path as a string: SelectTransformation makes the Path itself
+        else:
+            p = RecPath(G.path_str(op[1]))  # ... or a Path instance (here: one that records)
+            p.idx = i
         return Transformer(p) if t is None else t.select(p)
+    if name == 'apply':
+        fn = USERFN[op[1]]                  # a user-supplied callable on the marked stream (a new function
+        return t.apply(lambda stream: fn(stream))       # object per derivation: links are told apart by identity)
     if name in ('replace', 'before', 'after', 'prepend', 'append'):
         return getattr(t, name)(_content(op[1], bufs))
     if name == 'wrap':
@@ -189,9 +209,10 @@ def apply_op(t, i, op, bufs, RecPath):
     raise ValueError(op)
 
 
-def build_chain(ops, rec):
-    """ops -> (Transformer, buffers). rec collects, per select, the list of Path.test() results"""
-    RecPath = rec_path_class(rec)
+def build_chain(ops, rec, plain=False):
+    """ops -> (Transformer, buffers). rec collects, per select, the list of Path.test() results
+    (plain: nothing is recorded, the paths are handed over as strings)"""
+    RecPath = None if plain else rec_path_class(rec)
     bufs = {}
     t = None
     for i, op in enumerate(ops):
@@ -231,20 +252,24 @@ def jmark(m):
     return None if m is None else str(m)
 
 
-def run_real(doc, ops):
+def run_real(doc, ops, plain=False):
     """-> dict(status 'ok'|'err', marked [[mark, event]...], err, bufs {id: events}, rec [[result...]...])"""
     rec = {}
-    t, bufs = build_chain(ops, rec)       # a malformed case raises here: not an outcome of the code under test
+    t, bufs = build_chain(ops, rec, plain)       # a malformed case raises here: not an outcome of the code under test
     return run_transformer(doc, t, bufs, rec)
 
 
 def run_transformer(doc, t, bufs, rec):
-    out = {'status': 'ok', 'marked': [], 'err': None, 'bufs': {}, 'rec': rec}
+    out = {'status': 'ok', 'marked': [], 'err': None, 'bufs': {}, 'rec': rec, 'plain': None}
     events = G.to_genshi(G.flatten(doc))
+    raw = []
     try:
         with Watchdog():
             for mark, ev in t(events, keep_marks=True):
+                raw.append((mark, ev))
                 out['marked'].append([jmark(mark), G.from_genshi_event(ev)])
+            # the output without marks: the real Transformer._unmark on the marked output
+            out['plain'] = G.from_genshi(list(t._unmark(iter(raw))))
     except Exception as e:  # noqa
         out['status'] = 'err'
         out['err'] = type(e).__name__
@@ -258,6 +283,22 @@ def run_transformer(doc, t, bufs, rec):
     for i, b in sorted((i, b) for i, b in bufs.items() if i != 'trace'):
         out['bufs'][i] = G.from_genshi(list(b))
     out['trace'] = [len(log.getvalue().splitlines()) for log in bufs.get('trace', [])]
+    if out['status'] == 'ok' and 'trace' not in bufs and len(raw) % 3 == 0:
+        # one run in three: Transformer.__call__(stream) as users call it (keep_marks=False), a second run
+        # of the same object; the records of the first run are kept
+        keep = dict((k, list(v) if isinstance(v, list) else v) for k, v in rec.items())
+        for b in bufs.values():
+            b.reset()                     # "care must be taken ... that buffers are cleared between transforms"
+        try:
+            with Watchdog():
+                out['plain'] = G.from_genshi(list(t(events)))
+            out['plain-by'] = 'call'
+        except Exception as e:  # noqa
+            out['plain'] = 'err: ' + type(e).__name__
+        except NoTermination:
+            out['plain'] = 'err: NoTermination'
+        rec.clear()
+        rec.update(keep)
     return out
 
 
@@ -268,7 +309,8 @@ OPCLASS = {'select': 'SelectTransformation', 'remove': 'RemoveTransformation', '
            'prepend': 'PrependTransformation', 'append': 'AppendTransformation', 'rename': 'RenameTransformation',
            'attr': 'AttrTransformation', 'attrfn': 'AttrTransformation', 'copy': 'CopyTransformation',
            'cut': 'CutTransformation', 'map': 'MapTransformation', 'substitute': 'SubstituteTransformation',
-           'filter': 'FilterTransformation', 'trace': 'TraceTransformation', 'maptext': 'MapTransformation'}
+           'filter': 'FilterTransformation', 'trace': 'TraceTransformation', 'maptext': 'MapTransformation',
+           'apply': 'function'}
 
 
 class PosLink(object):
@@ -358,7 +400,8 @@ def oracle_tree(case, tree=None):
     for the object as it is (a transformer that only selects is the identity, ...)"""
     history, runs = tree if tree is not None else run_tree(case)
     for k, ops, real in runs:
-        fresh = run_real(case['doc'], ops)
+        # (the fresh chain is given its paths as strings, the objects of the tree as Path instances)
+        fresh = run_real(case['doc'], ops, plain=True)
         if not same_outcome(real, fresh):
             what = 'a transformer that only selects is the identity' if len(ops) == 1 else \
                 'a transformer changes only what its own operations select'
@@ -416,7 +459,15 @@ def oracle_chain(case, real=None):
         if adm:
             return fail(case, 'the transformer maps a well-nested stream to a stream (no exception)', 'a stream', real['err'])
         return None
-    out = unmark(real['marked'])
+    out = real.get('plain')
+    if out is None:
+        out = unmark(real['marked'])
+    elif isinstance(out, str):
+        # the second run of the same object (called without keep_marks) failed, the first did not
+        if not adm:
+            return None
+        return fail(case, 'the transformer maps a well-nested stream to a stream (no exception), every time it is applied',
+                    _short(unmark(real['marked'])), out)
     if adm and not G.nested_ok(out):
         return fail(case, 'chain output is well nested', 'well nested', _short(out))
     names = [o[0] for o in ops]
@@ -432,7 +483,7 @@ def oracle_chain(case, real=None):
             [n for n in real['trace'] if n] != [len(real['marked'])][:len(real['marked'])]:
         return fail(case, 'trace prints one line per item it passes on', [len(real['marked'])], real.get('trace'))
     if len(ops) == 2 and names[0] == 'select' and names[1] not in ('select', 'invert', 'end', 'buffer', 'map',
-                                                                      'substitute', 'filter'):
+                                                                      'substitute', 'filter', 'apply'):
         if 'text' in ops[0][1] or not G.plain_doc(doc):
             # a path of the shared grammar, or a document with namespace / DOCTYPE / CDATA events: XPath
             # semantics is C05/C17's; the selection is what the transformer that ONLY selects marks (a
@@ -807,7 +858,7 @@ def valid_path(p):
         return False
 
 
-ARITY = {'trace': 1, 'maptext': 2, 'wrapel': 4, 'attrfn': 3, 'select': 2, 'remove': 1, 'unwrap': 1, 'empty': 1, 'invert': 1, 'end': 1, 'buffer': 1, 'wrap': 3,
+ARITY = {'apply': 2, 'trace': 1, 'maptext': 2, 'wrapel': 4, 'attrfn': 3, 'select': 2, 'remove': 1, 'unwrap': 1, 'empty': 1, 'invert': 1, 'end': 1, 'buffer': 1, 'wrap': 3,
          'replace': 2, 'before': 2, 'after': 2, 'prepend': 2, 'append': 2, 'rename': 2, 'attr': 3, 'copy': 3,
          'cut': 3, 'map': 2, 'substitute': 4, 'filter': 2}
 
@@ -865,6 +916,8 @@ def valid_case(case):
                 if op[0] in ('copy', 'cut') and not (isinstance(op[1], int) and isinstance(op[2], bool)):
                     return False
                 if op[0] == 'maptext' and op[1] not in MAPTEXT:
+                    return False
+                if op[0] == 'apply' and op[1] not in USERFN:
                     return False
                 if op[0] == 'substitute' and not (isinstance(op[1], str) and op[1].isalnum() and
                                                   isinstance(op[2], str) and '\\' not in op[2] and isinstance(op[3], int)):
@@ -1074,6 +1127,8 @@ def w_op(i, op, rec):
         return [Atom(n), op[1], B(op[2])]
     if n == 'map':
         return [Atom('map'), B(op[1] == 'N')]
+    if n == 'apply':
+        return [Atom('map'), B(False)]          # the user-written generator `_user_bang` does what map(_bang, TEXT) does
     if n == 'substitute':
         return [Atom('SUBST'), op[1], op[2], op[3]]
     if n == 'filter':
@@ -1094,7 +1149,7 @@ def chain_real_answer(real):
     # results that function can return) must hold on the real code
     # ... and, for chains the stage-wise model answers, the lazy model must give the same
     return ['ok', [[m, e] for m, e in real['marked']], [[i, b] for i, b in sorted(real['bufs'].items())],
-            unmark(real['marked']), True, True]
+            real['plain'] if real.get('plain') is not None else unmark(real['marked']), True, True]
 
 
 def chain_model_answer(ans):
@@ -1231,6 +1286,35 @@ def in_theorem_class(ops):
     return True
 
 
+def in_lazy_theorem_class(ops):
+    """mirror of `AdmSegs true (segs ops)` and `lazyRaw ops` (Lemmas/TfTraceInv.lean, Model/TfTrace.lean):
+    the chains covered by lazy_raw_chain_wellnested -- per segment (between two buffer() barriers) one writer
+    per buffer, a buffer written earlier in the segment read only on a Good marking, no buffer written by
+    a link that (or a link before which) reads it; operations admitted on the marking as in `Admissible`"""
+    good = True
+    w, r = set(), set()
+    for op in ops:
+        n = op[0]
+        if n == 'buffer':
+            w, r = set(), set()
+            continue
+        if not good and n in DIRTY_EXCLUDED:
+            return False
+        if n in ('copy', 'cut'):
+            if op[1] in w or op[1] in r:
+                return False
+            w.add(op[1])
+        elif n in G.INJECT and op[1][0] == 'buf':
+            if op[1][1] in w and not good:
+                return False
+            r.add(op[1][1])
+        if n in ('select', 'end'):
+            good = True
+        elif n == 'invert':
+            good = False
+    return True
+
+
 def chain_key(case, real):
     """distinct non-trivial chain: (operation names, path strings, marks that occur)"""
     marks = sorted(set(m for m, _ in real['marked'] if m))
@@ -1268,11 +1352,17 @@ def process(cases, res):
                     elif o[0] == 'attrfn':
                         res.count('attrfn:' + ('copy-attr' if isinstance(o[2], str) else o[2][0]))
                 res.count('chain-status:' + real['status'] + (':' + real['err'] if real['err'] else ''))
+                if real['status'] == 'ok':
+                    res.count('unmarked-output-by:' + ('Transformer.__call__(stream)' if real.get('plain-by') else
+                                                       '_unmark(marked output)'))
                 hits = [sum(1 for _, r in v if r is True or r) for k_, v in sorted((k2, v2) for k2, v2 in real['rec'].items() if isinstance(k2, int))]
                 if any(isinstance(k2, tuple) and k2[0] == 'raised' for k2 in real['rec']):
                     res.count('chain:path-test-raised')
                 res.count('first-select:' + ('matches' if hits and hits[0] else 'empty'))
                 res.count('chain:' + ('in' if in_theorem_class(c['ops']) else 'outside') + '-chain_wellnested')
+                if not G.stagewise(c['ops']):
+                    res.count('chain-lazy:' + ('in' if in_lazy_theorem_class(c['ops']) else 'outside') +
+                              '-lazy_raw_chain_wellnested')
                 res.count('path:' + ('shared-grammar' if 'text' in c['ops'][0][1] else 'ast'))
                 for ft in sorted(G.doc_features(c['doc'])) or ['plain']:
                     res.count('doc:' + ft)
